@@ -489,3 +489,8 @@ CHECK = Check(
         "of cuts within seplen+2 of the limit offset. The quick tier enumerates limits 4 and 9 for four serializers only, all partitions up to 11 bytes."
     ),
 )
+
+# thorough tier: the same strategy and oracle driven by the coverage-guided engine (pbt/covfuzz.py)
+from ..covfuzz import cov_layer  # noqa: E402
+
+CHECK.layers.append(cov_layer("C07", CHECK.layer("bound"), runs=8000, time_s=100))
